@@ -26,6 +26,9 @@ type c04Act struct {
 	Before int      `json:"before,omitempty"`
 	Limit  int      `json:"limit,omitempty"`
 	Mode   string   `json:"m,omitempty"`
+	// Fail: inject a store failure into this delete: 1 = MessageDeleteList (first write of the transaction),
+	// 2 = TopicUpdate, 3 = SubsUpdate (later writes: what was written before stays, a recorded finding)
+	Fail int `json:"fail,omitempty"`
 }
 
 type c04Prog struct {
@@ -111,6 +114,14 @@ func genC04(rt *rapid.T) c04Prog {
 			a.Mode = rapid.SampledFrom([]string{"JRWPS", "JWP", "JRWPSD", "JRP", "JRWPASDO", "JR"}).Draw(rt, "mode")
 		}
 		p.Acts = append(p.Acts, a)
+	}
+	// store faults are drawn last so that the draws above keep their positions
+	if rapid.IntRange(0, 2).Draw(rt, "faults") == 0 {
+		for i := range p.Acts {
+			if p.Acts[i].Kind == "del" {
+				p.Acts[i].Fail = rapid.SampledFrom([]int{0, 1, 1, 1, 2, 3}).Draw(rt, "fail")
+			}
+		}
 	}
 	return p
 }
@@ -231,6 +242,7 @@ type c04Exp struct {
 	Obvious  bool // the delete list contains a negative / inverted / beyond-last-low entry
 	Union    map[int]bool
 	Hard     bool
+	PreDelID int
 }
 
 func runC04(t *testing.T, sched simrt.Schedule, prog c04Prog) ([]Violation, RunStats) {
@@ -314,6 +326,7 @@ func runC04(t *testing.T, sched simrt.Schedule, prog c04Prog) ([]Violation, RunS
 				e.Reader = mode&types.ModeRead != 0
 				e.Deleter = mode&types.ModeDelete != 0
 				e.LastID = ts.LastID
+				e.PreDelID = ts.DelID
 			}
 			if e.Kind == "del" {
 				e.Hard = m.Del.Hard && e.Deleter
@@ -335,6 +348,7 @@ func runC04(t *testing.T, sched simrt.Schedule, prog c04Prog) ([]Violation, RunS
 			}
 			p.Exp = e
 		}
+		abandon := false
 		w.OnIsoDone = func(p *isoProbe, post *Snapshot) {
 			e, _ := p.Exp.(*c04Exp)
 			if e == nil {
@@ -358,6 +372,30 @@ func runC04(t *testing.T, sched simrt.Schedule, prog c04Prog) ([]Violation, RunS
 				}
 				if accepted && e.Obvious {
 					out = append(out, vio("C04", "invalid-range-accepted", "delete list %v (last id %d) was accepted", canon(s.Msg.Del.DelSeq), e.LastID))
+				}
+				failed := simStore.Fault != nil && simStore.Fault.Fired
+				failMethod := ""
+				if simStore.Fault != nil {
+					failMethod = simStore.Fault.FailMethod
+				}
+				simStore.Fault = nil
+				if failed {
+					simrt.Probe("fault.store_err")
+					if accepted {
+						out = append(out, vio("C04", "failed-delete-accepted", "delete on %s answered %d although the store call %s failed", e.Topic, s.Code, failMethod))
+					}
+					if ts := post.Topics[e.Topic]; ts != nil && ts.DelID != e.PreDelID {
+						out = append(out, vio("C04", "failed-delete-consumed-number", "delete on %s failed in the store (%s) but the live delete counter moved %d -> %d", e.Topic, failMethod, e.PreDelID, ts.DelID))
+					}
+					if failMethod != "MessageDeleteList" {
+						// the transaction's first write went through: messages are hidden and logged although the
+						// request was answered with an error. Recorded finding; the ledger cannot follow, stop here.
+						if d := w.Disk.Dump(); d != e.DiskDump {
+							out = append(out, vio("C04", "store-fault-partial-effect del-msg", "delete on %s answered %d after %s failed; the store keeps:\n%s", e.Topic, s.Code, failMethod, diffLines(e.DiskDump, d)))
+						}
+						abandon = true
+						return
+					}
 				}
 				if !accepted {
 					if s.Code < 400 {
@@ -580,6 +618,10 @@ func runC04(t *testing.T, sched simrt.Schedule, prog c04Prog) ([]Violation, RunS
 			}
 			op.Isolated = true
 			_ = order
+			if a.Kind == "del" && a.Fail > 0 {
+				simStore.Fault = &faultPlan{FailAt: 1, FailMethod: []string{"MessageDeleteList", "TopicUpdate", "SubsUpdate"}[a.Fail-1]}
+				simrt.Probe("fault.store_armed")
+			}
 			// run strictly one after another: each act is its own mini phase
 			acts = map[int][]*Op{c.Idx: {op}}
 			w.setOps(acts)
@@ -588,6 +630,10 @@ func runC04(t *testing.T, sched simrt.Schedule, prog c04Prog) ([]Violation, RunS
 				return out
 			}
 			w.Enabled(true)
+			simStore.Fault = nil
+			if abandon {
+				break
+			}
 			if a.Kind == "pub" {
 				record()
 			}
